@@ -231,9 +231,6 @@ class Gen:
             inner = self.scalar()
         return {"oneOf": [inner, {"type": "null"}]}
 
-    def variant_objs(self, names, depth, n):
-        return [self.obj(names, depth + 1, closed=self.rnd.random() < 0.5, nprops=self.rnd.randrange(1, 3))
-                for _ in range(n)]
 
     def union(self, names, depth):
         r = self.rnd
@@ -256,9 +253,13 @@ class Gen:
                              "additionalProperties": False})
             return {"oneOf": subs}
         if k == "oneof_internal":
+            # Random stream: all branches open or all closed (a mix is finding C02-F1, kept in the
+            # curated corpus), and the first branch has two members besides the tag so that the
+            # document cannot be mistaken for an adjacently tagged one (finding C02-F2).
             subs = []
-            for v in vn:
-                o = self.obj(names, depth + 1, closed=r.random() < 0.5, nprops=r.randrange(0, 3),
+            closed = r.random() < 0.5
+            for n, v in enumerate(vn):
+                o = self.obj(names, depth + 1, closed=closed, nprops=2 if n == 0 else r.randrange(0, 3),
                              extra_props={"tagg": {"type": "string", "enum": [v]}})
                 subs.append(o)
             return {"oneOf": subs}
@@ -521,8 +522,28 @@ def paths(doc, s, v, path=(), depth=0):
         yield from paths(doc, doc["definitions"][s["$ref"].split("/")[-1]], v, path, depth + 1)
         return
     yield path, s, v
-    if isinstance(s.get("type"), list) and v is not None:
-        pass
+    for uk in ("oneOf", "anyOf"):
+        if uk in s and isinstance(v, dict):
+            cands = []
+            for b in s[uk]:
+                b = resolve(doc, b)
+                if not isinstance(b, dict) or b.get("type") != "object":
+                    continue
+                props = b.get("properties", {})
+                if not all(r in v for r in b.get("required", [])):
+                    continue
+                if b.get("additionalProperties") is False and not all(k in props for k in v):
+                    continue
+                ok = True
+                for pk, ps in props.items():
+                    if isinstance(ps, dict) and isinstance(ps.get("enum"), list) and len(ps["enum"]) == 1 \
+                            and pk in v and v[pk] != ps["enum"][0]:
+                        ok = False
+                if ok:
+                    cands.append(b)
+            if len(cands) == 1:
+                yield from paths(doc, cands[0], v, path, depth + 1)
+            return
     if isinstance(v, dict) and isinstance(s.get("properties"), dict):
         for k, sv in v.items():
             if k in s["properties"]:
@@ -611,15 +632,17 @@ def mutants(seed, doc, schema, inst):
     return out
 
 
-def _accepts_null(doc, s):
+def _accepts_null(doc, s, depth=0):
     if not isinstance(s, dict):
         return True
+    if depth > 12:
+        return False
     s = resolve(doc, s)
     t = s.get("type")
     if t == "null" or (isinstance(t, list) and "null" in t):
         return True
     for k in ("oneOf", "anyOf"):
-        if k in s and any(_accepts_null(doc, x) for x in s[k]):
+        if k in s and any(_accepts_null(doc, x, depth + 1) for x in s[k]):
             return True
     if t is None and "enum" not in s and "properties" not in s and "allOf" not in s and "$ref" not in s \
             and "oneOf" not in s and "anyOf" not in s:
@@ -649,3 +672,16 @@ def boundary_variants(seed, doc, schema, inst):
                 out.append(set_path(inst, path, lo))
                 out.append(set_path(inst, path, hi))
     return out
+
+
+def with_extra_keys(doc, schema, inst, key="zzz_extra"):
+    """inst with an undeclared member added to every OPEN object position
+    (properties declared, additionalProperties absent or true); None if there is none."""
+    out = inst
+    n = 0
+    for path, s, v in list(paths(doc, schema, inst)):
+        if isinstance(v, dict) and isinstance(s.get("properties"), dict) and \
+                s.get("additionalProperties", True) is True and key not in s["properties"]:
+            out = set_path(out, path + (key,), 1)
+            n += 1
+    return out if n else None
